@@ -53,6 +53,11 @@ pub struct Case {
     /// one consumer (global index) that is not drained until everything else is done
     pub undrained: Option<u16>,
     pub salt: u64,
+    /// per channel (cyclic): the return listener is dropped right after it was registered; the
+    /// returned messages of that channel then have no recipient and are discarded, without any
+    /// effect on the other messages
+    #[serde(default)]
+    pub dropped_listeners: Vec<bool>,
 }
 
 /// Resolved message: what exactly goes on the wire and who must receive it.
@@ -297,7 +302,8 @@ pub fn exec(c: &Case) -> Outcome {
         let exp_counts: Vec<usize> = (0..ncons as usize)
             .map(|k| msgs.iter().filter(|m| m.ch_idx == i && m.kind == RKind::Deliver(k)).count())
             .collect();
-        let exp_returns = msgs.iter().filter(|m| m.ch_idx == i && m.kind == RKind::Return).count();
+        let listener_dropped = listener && !c.dropped_listeners.is_empty() && c.dropped_listeners[i % c.dropped_listeners.len()];
+        let exp_returns = if listener_dropped { 0 } else { msgs.iter().filter(|m| m.ch_idx == i && m.kind == RKind::Return).count() };
         let ngets = n_gets[i];
         let base = cons_base[i];
         let others_done = others_done.clone();
@@ -329,6 +335,10 @@ pub fn exec(c: &Case) -> Outcome {
                     }
                     let ret_rx = if listener {
                         match ch.listen_for_returns() {
+                            Ok(r) if listener_dropped => {
+                                drop(r);
+                                None
+                            }
                             Ok(r) => Some(r),
                             Err(e) => {
                                 rep.errors.push(format!("listen_for_returns: {:?}", e));
@@ -614,7 +624,8 @@ pub fn exec(c: &Case) -> Outcome {
             }
         }
         // returns
-        let want: Vec<&Resolved> = msgs.iter().filter(|m| m.ch_idx == i && m.kind == RKind::Return).collect();
+        let listener_dropped = c.channels[i].1 && !c.dropped_listeners.is_empty() && c.dropped_listeners[i % c.dropped_listeners.len()];
+        let want: Vec<&Resolved> = msgs.iter().filter(|m| m.ch_idx == i && m.kind == RKind::Return && !listener_dropped).collect();
         if rep.returns.len() != want.len() {
             return Outcome::fail("return-count", format!("channel idx {}: {} returns, expected {}", i, rep.returns.len(), want.len()));
         }
@@ -692,14 +703,16 @@ fn strat(_t: Tier) -> BoxedStrategy<Case> {
         vec((any::<u16>(), prop::bool::weighted(0.3)), 0..12),
         prop_oneof![2 => Just(None), 1 => any::<u16>().prop_map(Some)],
         any::<u64>(),
+        vec(prop::bool::weighted(0.3), 0..4),
     )
-        .prop_map(|(channels, msgs, interleave, cuts, undrained, salt)| Case {
+        .prop_map(|(channels, msgs, interleave, cuts, undrained, salt, dropped_listeners)| Case {
             channels,
             msgs,
             interleave,
             cuts,
             undrained,
             salt,
+            dropped_listeners,
         })
         .boxed()
 }
@@ -880,7 +893,7 @@ pub fn parts() -> Vec<Box<dyn PartDyn>> {
         }),
         Box::new(Part::<Case> {
             name: "e2e",
-            rule: "valid server histories: 1-4 channels (a thread each) with 0-3 consumers and an optional return listener, 1-29 messages (deliver / get-ok / get-empty / return, generated metadata and properties, bodies 0-12 000 bytes cut into generated body frames incl. 1-byte frames), a generated interleaving of the channels' frame sequences and a generated segmentation of the byte stream into reads (1-8 byte segments, would-block markers); optionally one consumer is not drained until all others are done; oracle: every receiver / get / return listener yields exactly the scripted messages, field by field, in order, exactly once (nothing queued after a final barrier), acks through the arrival channel do not panic and reach the wire on that channel; non-trivial = a multi-frame body has another channel's frame in between, or a read boundary falls inside a frame; distinct by case hash",
+            rule: "valid server histories: 1-4 channels (a thread each) with 0-3 consumers and an optional return listener (kept, or dropped right after registration so that its channel's returned messages have no recipient), 1-29 messages (deliver / get-ok / get-empty / return, generated metadata and properties, bodies 0-12 000 bytes cut into generated body frames incl. 1-byte frames), a generated interleaving of the channels' frame sequences and a generated segmentation of the byte stream into reads (1-8 byte segments, would-block markers); optionally one consumer is not drained until all others are done; oracle: every receiver / get / return listener yields exactly the scripted messages, field by field, in order, exactly once (nothing queued after a final barrier), acks through the arrival channel do not panic and reach the wire on that channel; non-trivial = a multi-frame body has another channel's frame in between, or a read boundary falls inside a frame; distinct by case hash",
             cases: |t| t.pick(2000, 30_000),
             threads: 12,
             strategy: strat,
